@@ -381,7 +381,14 @@ class _RelationTracker(object):
     engine = self._engine
     if engine._is_current_node_formula:
       rel = self._get_relation(engine._current_node)
-      rel._add_lookup(engine._current_row_id, key)
+      try:
+        rel._add_lookup(engine._current_row_id, key)
+      except TypeError:
+        # The key is unusable (e.g. unhashable, as for a lookup by a reference list). Still depend
+        # on the lookup map, so that the formula gets re-evaluated when the looked-up column
+        # changes (its type determines how keys get converted).
+        engine._use_node(self._lookup_map.node, rel)
+        raise
     else:
       rel = None
 
